@@ -39,7 +39,10 @@ def main():
         if m.get("expected_miss"):
             print("KNOWN-MISS %s %s" % (os.path.basename(os.path.dirname(mf)), m["expected_miss"]), flush=True)
             continue
-        for pid in (m.get("detected_by") or [m.get("property")]):
+        pids = m.get("detected_by") or [m.get("property")]
+        if os.environ.get("SELFTEST_PRIMARY"):       # one run per mutant: the check of its own property if that catches it
+            pids = [m.get("property")] if m.get("property") in pids else pids[:1]
+        for pid in pids:
             items.append((pid, os.path.join(os.path.dirname(mf), "patch.diff")))
     # behaviour-preserving changes (benign/): the checks must stay quiet
     quiet = []
